@@ -266,6 +266,12 @@ def run(ctx):
                     "the walk starts with an empty skip list, the canonical base and the prepared filter", dn0.loc(dn0.line), detail=str({k: fl.get(k) for k in ("to_skip", "base", "filter")}))
     except Skip:
         pass
+    # a directory's builder survives a failed add_file: otherwise the ignore files found later in that directory are silently not compiled and stop pruning
+    try:
+        from . import c03 as _c03b
+        _c03b.builders_stay(ctx, "R14.3")
+    except Skip:
+        pass
     # check_dir's own verdict table (shared with C03 R03.4): pruning is only as good as what check_dir answers
     from . import c03 as _c03
     _c03.consumers(ctx, "R14.2", only="check_dir")
